@@ -38,6 +38,16 @@ func c16Tree(cfg int) Tree {
 		"fail2.tw": "@use(\"lay\")@insert(\"body\"){{ 1 / 0 }}@end",
 		"plain.tw": "plain {{ name.upper() }} {{ items.len() }}",
 		"err.tw":   "custom error page",
+		// a page that walks through as much of the interpreter as possible (every built-in, loops, dump, objects …)
+		"sink.tw": `{{-- sink --}}\{{ esc }} \@if(x)
+@for(i = 0; i < 3; i++){{ i }}@continueIf(i == 1)@for(j = 0; j < 2; j = j + 1)[{{ i * 2 + j }}]@end@end
+@each(v in items){{ loop.index }}{{ loop.first }}{{ loop.last }}@breakIf(loop.iter > 5)@else none@end
+{{ s = "  Hello, wörld  " }}{{ s.trim().upper() }}{{ s.trimLeft().lower() }}{{ s.trimRight() }}{{ s.len() }}{{ s.trim().split(", ").join("+") }}
+{{ "abc".capitalize() }}{{ "abc".reverse() }}{{ "abc".contains("b") }}{{ "abcdef".truncate(3) }}{{ "12".decimal() }}{{ "abc".at(1) }}{{ "abc".first() }}{{ "abc".last() }}{{ "ab".repeat(2) }}{{ "<b>".raw() }}
+{{ a = [3, 1, 2] }}{{ a.len() }}{{ a.reverse() }}{{ a.slice(1) }}{{ a.contains(2) }}{{ a.append(4).prepend(0) }}{{ a.join("-") }}{{ a.shuffle().len() }}{{ a.rand() > 0 }}
+{{ 5.float() }}{{ (-5).abs() }}{{ 5.str() + "x" }}{{ 123.len() }}{{ 5.decimal(",", 1) }}{{ 2.5.int() }}{{ 2.5.str() }}{{ (-2.5).abs() }}{{ 2.4.ceil() }}{{ 2.6.floor() }}{{ 2.5.round() }}
+{{ true.binary() }}{{ flag.then("y", "n") }}{{ !flag ? 1 : 2 }}{{ {b: 1, a: [1, {c: nil}]}.a[1] }}{{ 7 % 3 }}{{ 1.5 * 2.0 }}{{ 3-- }}{{ 2.5++ }}
+@dump(name, items, {k: 1})@if(flag)A@elseif(name == "Bob<b>")B@else C@end`,
 	}}
 	if cfg&2 != 0 {
 		t.ErrorPage = "err"
@@ -51,7 +61,7 @@ func outcomeKey(o Outcome) string {
 
 func c16Ops() []c16Op {
 	var ops []c16Op
-	for _, name := range []string{"ok", "fail", "fail2", "nope", "lay", "plain"} {
+	for _, name := range []string{"ok", "fail", "fail2", "nope", "lay", "plain", "sink"} {
 		for d := 0; d < 2; d++ {
 			name, d := name, d
 			ops = append(ops, c16Op{fmt.Sprintf("String(%s,d%d)", name, d), func(tpl *textwire.Template, t Tree) (string, bool) {
@@ -59,7 +69,7 @@ func c16Ops() []c16Op {
 				o := render(tpl, name, data)
 				return outcomeKey(o), !reflect.DeepEqual(data, c16Data(d))
 			}})
-			if name == "plain" || name == "lay" {
+			if name == "plain" || name == "lay" || name == "sink" {
 				continue
 			}
 			ops = append(ops, c16Op{fmt.Sprintf("Response(%s,d%d)", name, d), func(tpl *textwire.Template, t Tree) (string, bool) {
